@@ -3,39 +3,35 @@
   Model: Spydr/IR/NamesModel.lean (NamespaceManager + Default/Edif namespace tables, as repaired).
   Helper lemmas: Spydr/IR/NamesLemmas*.lean.
 -/
-import Spydr.IR.NamesLemmas3
+import Spydr.IR.NamesLemmas5
 namespace Spydr.Names
 
-/-- An operation that moves policy between elements: explicit `.NS` assignment / deletion, switching the
-    process-wide default, or an `add` whose child does not already carry the parent's policy (the child's
-    whole subtree is then re-indexed by `apply_namespace`). -/
-def movesPolicy (s : N) : Op → Prop
-  | .attach p c => ¬ ((s.info p).ns ≠ none ∧ (s.info c).ns = (s.info p).ns)
-  | .setNs _ _ => True
-  | .delNs _ => True
-  | .setDefault _ => True
-  | _ => False
-
-/-- **One step preserves the index invariant** (PARTIAL: for every operation that does not move policy;
-    the full statement `∀ op, NsInv s → NsInv (step s op).1` additionally needs `applyNs` on a compliant
-    subtree to rebuild a correct index — `dropNs_nsinv`, `noDupBy_spec`, `find?_unique` are proved, the
-    assembly over the three-level subtree is not). -/
-theorem step_nsinv_partial (s : N) (op : Op) (h : NsInv s) (hp : ¬ movesPolicy s op) : NsInv (step s op).1 := by
+/-- **One step preserves the index invariant** — every operation, every argument, accepted or refused,
+    including the adoption of the parent's policy by a whole subtree on `add` (`apply_namespace` after the
+    compliance check), explicit `.NS` assignment / deletion and switching the process-wide policy. -/
+theorem step_nsinv (s : N) (op : Op) (h : NsInv s) : NsInv (step s op).1 := by
   cases op with
   | create e => exact create_nsinv s e h
-  | attach p c =>
-    have hp' := Classical.not_not.mp hp
-    cases hpp : (s.info p).ns with
-    | none => exact absurd hpp hp'.1
-    | some pp => exact attach_same_policy_nsinv s p c pp h hpp (by rw [hp'.2, hpp])
+  | attach p c => exact attach_nsinv s p c h
   | detach p c => exact detach_nsinv s p c h
   | setKey e k v => exact setKey_nsinv s e k v h
   | delKey e k => exact delKey_nsinv s e k h
   | popKey e k => exact popKey_nsinv s e k h
   | delNameProp e => exact delNameProp_nsinv s e h
-  | setNs e p => exact absurd trivial hp
-  | delNs e => exact absurd trivial hp
-  | setDefault p => exact absurd trivial hp
+  | setNs e p => exact setNs_nsinv s e p h
+  | delNs e => exact delNs_nsinv s e h
+  | setDefault p => exact setDefault_nsinv s p h
+
+/-- **Every history, every prefix, under both policies and across policy switches**: the tables index
+    exactly the current children. -/
+theorem run_nsinv (ops : List Op) (s : N) (h : NsInv s) : NsInv (run s ops).1 := by
+  induction ops generalizing s with
+  | nil => exact h
+  | cons op ops ih =>
+    simp only [run]
+    exact ih _ (step_nsinv s op h)
+
+theorem run_nsinv_from_init (ops : List Op) : NsInv (run N.init ops).1 := run_nsinv ops _ init_nsinv
 
 /-- the heap in which every object was created under policy `pol` -/
 def N.initWith (pol : Policy) : N :=
@@ -43,81 +39,11 @@ def N.initWith (pol : Policy) : N :=
                 info := fun _ => { name := none, ident := none, ns := some pol }
                 tpol := fun _ => pol }
 
-/-- every element carries the process-wide policy -/
-def Uniform (s : N) : Prop := ∀ e, (s.info e).ns = some s.dflt
-
-def isPolicyOp : Op → Bool
-  | .setNs _ _ | .delNs _ | .setDefault _ => true
-  | _ => false
-
 theorem initWith_nsinv (pol : Policy) : NsInv (N.initWith pol) := by
   constructor <;> simp [N.initWith, N.init]
 
-theorem initWith_uniform (pol : Policy) : Uniform (N.initWith pol) := by
-  intro e; simp [N.initWith]
-
-theorem uniform_not_moves (s : N) (op : Op) (hu : Uniform s) (hop : isPolicyOp op = false) : ¬ movesPolicy s op := by
-  cases op <;> simp_all [movesPolicy, isPolicyOp, Uniform]
-
-theorem uniform_step (s : N) (op : Op) (hu : Uniform s) (hop : isPolicyOp op = false) : Uniform (step s op).1 := by
-  intro x
-  have hx := hu x
-  cases op with
-  | create e =>
-    simp only [step]
-    split
-    · exact hx
-    · simp only []
-      by_cases hxe : x = e
-      · simp [hxe]
-      · simp [hxe, hx]
-  | attach p c =>
-    have hp := hu p; have hc := hu c
-    have e1 : s.setNsCore c s.dflt = (s, .ok) := by simp [N.setNsCore, hc]
-    have hreg : ∀ y, ((s.register p c).info y) = s.info y := by
-      intro y
-      simp only [N.register, N.tblUpdate]
-      cases (s.info c).ident <;> cases (s.info c).name <;> rfl
-    have hd : (s.register p c).dflt = s.dflt := by
-      simp only [N.register, N.tblUpdate]
-      cases (s.info c).ident <;> cases (s.info c).name <;> rfl
-    simp only [step, hp, e1]
-    repeat' split
-    all_goals first
-      | exact hx
-      | (simp only [hreg, hd]; exact hx)
-  | detach p c => simp only [step]; split <;> simp_all [N.tblRemove]
-  | setKey e k v =>
-    simp only [step]
-    repeat' split
-    all_goals first
-      | exact hx
-      | (cases k <;> simp_all [N.tblUpdate, Rec.set] <;> split <;> simp_all)
-  | delKey e k => simp only [step, N.removeKey]; repeat' split
-                  all_goals first | exact hx | (cases k <;> simp_all [N.tblRemove, Rec.set] <;> split <;> simp_all)
-  | popKey e k => simp only [step, N.removeKey]; repeat' split
-                  all_goals first | exact hx | (cases k <;> simp_all [N.tblRemove, Rec.set] <;> split <;> simp_all)
-  | delNameProp e => simp only [step, N.removeKey]; repeat' split
-                     all_goals first | exact hx | (simp_all [N.tblRemove, Rec.set] <;> split <;> simp_all)
-  | setNs e p => simp [isPolicyOp] at hop
-  | delNs e => simp [isPolicyOp] at hop
-  | setDefault p => simp [isPolicyOp] at hop
-
-/-- **Every history under one policy (DEFAULT or EDIF), every prefix**: the tables index exactly the
-    current children. -/
-theorem run_nsinv_uniform (ops : List Op) (s : N) (h : NsInv s) (hu : Uniform s)
-    (hops : ∀ op ∈ ops, isPolicyOp op = false) : NsInv (run s ops).1 ∧ Uniform (run s ops).1 := by
-  induction ops generalizing s with
-  | nil => exact ⟨h, hu⟩
-  | cons op ops ih =>
-    simp only [run]
-    have hop := hops op (by simp)
-    exact ih _ (step_nsinv_partial s op h (uniform_not_moves s op hu hop)) (uniform_step s op hu hop)
-      (fun o ho => hops o (by simp [ho]))
-
-theorem run_nsinv_both_policies (pol : Policy) (ops : List Op) (hops : ∀ op ∈ ops, isPolicyOp op = false) :
-    NsInv (run (N.initWith pol) ops).1 :=
-  (run_nsinv_uniform ops _ (initWith_nsinv pol) (initWith_uniform pol) hops).1
+theorem run_nsinv_both_policies (pol : Policy) (ops : List Op) : NsInv (run (N.initWith pol) ops).1 :=
+  run_nsinv ops _ (initWith_nsinv pol)
 
 /-- "names remain unique": two children of a managed parent, of the same class, with the same name are
     the same element; under the EDIF class the same for identifiers compared case-insensitively. -/
@@ -249,12 +175,11 @@ def l0 : El := ⟨.library, 0⟩
 def d0 : El := ⟨.definition, 0⟩
 def d1 : El := ⟨.definition, 1⟩
 def demoN : List Op :=
-  [ .setKey d0 .ident "Abc", .attach l0 d0, .setKey d1 .ident "aBC", .attach l0 d1, .detach l0 d0, .attach l0 d1,
+  [ .setDefault .default, .create d1, .setDefault .edif, .setKey d0 .ident "Abc", .attach l0 d0, .setKey d1 .ident "aBC", .attach l0 d1, .detach l0 d0, .attach l0 d1,
     .setKey d0 .ident "x-y", .setKey d0 .name "n", .setKey d1 .name "n" ]
 
-example : (run (N.initWith .edif) demoN).2 = [.ok, .ok, .ok, .value, .ok, .ok, .value, .ok, .ok] := by decide
-example : ∀ op ∈ demoN, isPolicyOp op = false := by decide
-example : NsInv (run (N.initWith .edif) demoN).1 := run_nsinv_both_policies .edif demoN (by decide)
+example : (run (N.initWith .edif) demoN).2 = [.ok, .ok, .ok, .ok, .ok, .ok, .value, .ok, .ok, .value, .ok, .ok] := by decide
+example : NsInv (run (N.initWith .edif) demoN).1 := run_nsinv_both_policies .edif demoN
 example : (run (N.initWith .edif) demoN).1.lookup l0 .definition .ident "ABC" = some d1 := by decide
 
 end Spydr.Names
